@@ -31,7 +31,13 @@ type c39View struct {
 }
 
 func c39ViewOf(c Configuration) c39View {
-	v := c39View{Servers: c.ICEServers, Policy: c.ICETransportPolicy, Bundle: c.BundlePolicy, RTCPMux: c.RTCPMuxPolicy,
+	// (a deep copy: the slice GetConfiguration returns may share its backing array with the live configuration)
+	var servers []ICEServer
+	for _, sv := range c.ICEServers {
+		sv.URLs = append([]string{}, sv.URLs...)
+		servers = append(servers, sv)
+	}
+	v := c39View{Servers: servers, Policy: c.ICETransportPolicy, Bundle: c.BundlePolicy, RTCPMux: c.RTCPMuxPolicy,
 		Identity: c.PeerIdentity, Pool: c.ICECandidatePoolSize, Semantics: c.SDPSemantics, AlwaysDC: c.AlwaysNegotiateDataChannels}
 	for _, ct := range c.Certificates {
 		fps, _ := ct.GetFingerprints()
@@ -128,7 +134,11 @@ func c39Exec(r *sgRun, ps *sgPeerState, rec *sgRec, op sgOp, i int) {
 	}
 	badServer := false
 	if m&c39GoodServers != 0 {
-		nc.ICEServers = append(nc.ICEServers, ICEServer{URLs: []string{"stun:stun.example.org:3478"}})
+		// (a different valid server from call to call; sometimes two)
+		nc.ICEServers = append(nc.ICEServers, ICEServer{URLs: []string{fmt.Sprintf("stun:stun%d.example.org:3478", i%3)}})
+		if i%2 == 1 {
+			nc.ICEServers = append(nc.ICEServers, ICEServer{URLs: []string{fmt.Sprintf("stun:alt%d.example.org:3478", i%5)}})
+		}
 	}
 	if m&c39BadServer != 0 {
 		nc.ICEServers = append(nc.ICEServers, ICEServer{URLs: []string{vfPick(vfNewRand(r.c.GenSeed, fmt.Sprint("srv", i)), []string{"turn:turn.example.org:3478", "bogus:host", "turn:"})}})
@@ -423,6 +433,18 @@ func sgGenFor(prop string) func(seed uint64, idx, total int, tier string) any {
 			}
 		case "C39":
 			n := r.Range(3, 9)
+			if r.Bool(0.2) {
+				// ICE servers are accepted first; a later list whose second or third entry is invalid has
+				// to be refused without touching the stored ones
+				p := r.Intn(2)
+				same := c39SameIdentity | c39SameBundle | c39SameCerts | c39SamePool
+				ops = append(ops, sgOp{Kind: "setconfig", Peer: p, A: c39GoodServers | same})
+				if r.Bool(0.5) {
+					ops = append(ops, sgGenMedia(r, p))
+				}
+				ops = append(ops, sgOp{Kind: "setconfig", Peer: p, A: c39GoodServers | c39BadServer | same})
+				n = len(ops) + r.Range(0, 4)
+			}
 			for len(ops) < n {
 				p := r.Intn(2)
 				switch x := r.Intn(10); {
